@@ -380,6 +380,9 @@ def _order(case):
         return dict(status="ok", cls=cls, n_obs=2)
     detail = (f"{sv}/{route}: problem built before 64-bit mode was enabled: result dtype {b['dtype']}, iterations {b['it']} vs {a['it']}, "
               f"sum(values) {b['vsum']!r} vs {a['vsum']!r}")
+    if b["dtype"] != "float64":
+        # repaired (known_findings.txt, "fixed: property=C20 ... float32 values"): double precision was requested
+        return dict(status="violation", kind="dtype", detail=detail)
     if b["x64_at_problem"] is False and b["x64_after"] is True:
         return dict(status="known", key="problem-built-before-x64", detail=detail, cls=cls)
     return dict(status="violation", kind="order", detail=detail)
